@@ -390,6 +390,54 @@ fn oracle_nhdr(case: &[u8], obs: &mut Obs) -> Result<(), String> {
     Ok(())
 }
 
+/// The packed version index where the crate itself splits it: a one-record .gnu.version_r / .gnu.version_d and a
+/// versym word `index | hidden<<15`; the query must resolve by the low 15 bits and report bit 15 as `hidden`.
+fn oracle_versym_use(case: &[u8], obs: &mut Obs) -> Result<(), String> {
+    use elf::gnu_symver::{SymbolVersionTable, VersionIndexTable};
+    use elf::string_table::StringTable;
+    let mut c = Choice::new(case);
+    let enc = ALL_ENC[c.below(4) as usize];
+    let spec: u8 = specs_for(enc.le)[c.below(2) as usize];
+    let class = class_of(enc);
+    let idx: u16 = match c.below(4) {
+        0 => 2 + c.below(6) as u16,
+        1 => 0x7fff - c.below(0x100) as u16,
+        _ => (2 + c.below(0x7ffd)) as u16,
+    };
+    let hidden = c.bool();
+    let word = idx | if hidden { 0x8000 } else { 0 };
+    let strs = b"\0libx.so\0VER_1\0";
+    let need = m::enc_bytes(enc, |w| {
+        m::Verneed { vn_version: 1, vn_cnt: 1, vn_file: 1, vn_aux: 16, vn_next: 0 }.write(w);
+        m::Vernaux { vna_hash: 0x1234, vna_flags: 7, vna_other: idx, vna_name: 9, vna_next: 0 }.write(w);
+    });
+    let def = m::enc_bytes(enc, |w| {
+        m::Verdef { vd_version: 1, vd_flags: 3, vd_ndx: idx, vd_cnt: 1, vd_hash: 0x4321, vd_aux: 20, vd_next: 0 }.write(w);
+        m::Verdaux { vda_name: 9, vda_next: 0 }.write(w);
+    });
+    let versym = m::enc_bytes(enc, |w| w.u16(word));
+    let r: Result<(), String> = with_endian!(spec, |e| {
+        let t = SymbolVersionTable::new(VersionIndexTable::new(e, class, &versym), Some((VerNeedIterator::new(e, class, 1, 0, &need), StringTable::new(strs))), Some((VerDefIterator::new(e, class, 1, 0, &def), StringTable::new(strs))));
+        match t.get_requirement(0) {
+            Ok(Some(r)) if r.file == "libx.so" && r.name == "VER_1" && r.hash == 0x1234 && r.flags == 7 && r.hidden == hidden => {}
+            other => return Err(format!("get_requirement for versym word {:#06x} (index {}, hidden {}) = {:?}", word, idx, hidden, other.map_err(|e| err_name(&e)))),
+        }
+        match t.get_definition(0) {
+            Ok(Some(d)) if d.hash == 0x4321 && d.flags == 3 && d.hidden == hidden => {}
+            Ok(Some(d)) => return Err(format!("get_definition for versym word {:#06x}: hash {:#x} flags {} hidden {}", word, d.hash, d.flags, d.hidden)),
+            Ok(None) => return Err(format!("get_definition for versym word {:#06x} (index {}, hidden {}) = None", word, idx, hidden)),
+            Err(e) => return Err(format!("get_definition failed with {}", err_name(&e))),
+        }
+        Ok(())
+    });
+    r.map_err(|s| format!("{} {}: {}", enc.name(), SPEC_NAMES[spec as usize], s))?;
+    if hidden {
+        obs.nontrivial();
+    }
+    obs.describe(|| json!({"versym_word": format!("{:#06x}", word), "enc": enc.name()}));
+    Ok(())
+}
+
 /// plain encoding [hi, lo]: all 65536 values of the one-/two-byte derived accessors
 fn oracle_accessors(case: &[u8], obs: &mut Obs) -> Result<(), String> {
     if case.len() < 2 {
@@ -429,7 +477,7 @@ pub fn property() -> Property {
         level: "exploration",
         rule: "struct: cases are (one of 18 structure types, class, byte order, fixed or run-time spec, a field-value assignment with boundary/top-bit/per-byte-distinct/raw values, embedding offset and padding); the independent ELF writer encodes the values per the gABI tables and parse_at must return exactly them (u32 fields zero-extended, d_tag and ELF32 r_addend sign-extended, r_info split by the ELF32/ELF64 macros), advance by exactly the ABI size, agree with size_for, ParsingTable::get, ParsingIterator, and for the file header with parse_ident+parse_tail, ElfBytes.ehdr and ElfStream.ehdr; one byte short must fail. links: the crate-private link fields vd_aux/vd_next/vda_next/vn_aux/vn_next/vna_next observed through where VerDefIterator/VerNeedIterator go. accessors: st_bind/st_symtype/st_vis/is_undefined and VersionIndex index/hidden/local/global exhaustively over 2^16 values. Non-trivial (struct): some field has its top bit set and all same-width fields hold pairwise different values; (links): non-contiguous placement.",
         assumptions: &["the ELF writer's layout equals <elf.h> (checked at start-up against reference/struct_layout.tsv)", "VerDef/VerNeed records are generated with version 1 only (other versions are outside the statement)"],
-        subs: vec![Sub::new("struct", oracle_struct, 200, 1_000_000, 40_000_000), Sub::new("links", oracle_links, 120, 200_000, 5_000_000), Sub::new("nhdr", oracle_nhdr, 80, 200_000, 5_000_000), Sub::enumerated("accessors", oracle_accessors, enum_accessors, true)],
+        subs: vec![Sub::new("struct", oracle_struct, 200, 1_000_000, 40_000_000), Sub::new("links", oracle_links, 120, 200_000, 5_000_000), Sub::new("nhdr", oracle_nhdr, 80, 200_000, 5_000_000), Sub::new("versym_use", oracle_versym_use, 40, 100_000, 3_000_000), Sub::enumerated("accessors", oracle_accessors, enum_accessors, true)],
         extras: vec![],
     }
 }
